@@ -7,6 +7,7 @@ the columns of `U`, scatter through the ordering.  Part A holds for arbitrary ca
 part B over a field (the substitution identities on the dense embedding of the profile storage).
 -/
 namespace Amgcl
+open Arr2
 open Finset
 
 theorem foldl_congr_mem {α β : Type} (f g : β → α → β) (l : List α) (h : ∀ b, ∀ a ∈ l, f b a = g b a) (b : β) :
